@@ -380,11 +380,17 @@ def rule_ts_handle(ctx: RuleContext, ts: TS, rid: str) -> None:
                             return [s | {o}]
                         if f.attr == 'rebuild' and ts.is_block_expr(f.value, stores, blocks):
                             return [s - {canon(f.value), 'ctor'}]
-                        if f.attr == 'pop' and ts.is_blocks_expr(f.value, stores) and len(n.args) == 1 \
-                                and isinstance(n.args[0], ast.Attribute) and n.args[0].attr == 'index' \
-                                and ts.is_block_expr(n.args[0].value, stores, blocks):
-                            # the block leaves the block list (its tokens were moved elsewhere): nothing to re-handle
-                            return [s - {canon(n.args[0].value)}]
+                        if f.attr == 'pop' and ts.is_blocks_expr(f.value, stores) and len(n.args) == 1:
+                            parg = n.args[0]
+                            if isinstance(parg, ast.Name):
+                                # a local bound once to `<block>.index`
+                                defs_ = [a_.value for a_ in walk_no_nested(fn.node) if isinstance(a_, ast.Assign) and len(a_.targets) == 1
+                                         and isinstance(a_.targets[0], ast.Name) and a_.targets[0].id == parg.id]
+                                if len(defs_) == 1:
+                                    parg = defs_[0]
+                            if isinstance(parg, ast.Attribute) and parg.attr == 'index' and ts.is_block_expr(parg.value, stores, blocks):
+                                # the block leaves the block list (its tokens were moved elsewhere): nothing to re-handle
+                                return [s - {canon(parg.value)}]
                         callee = None
                         if isinstance(f.value, ast.Name) and f.value.id in stores:
                             callee = ts.funcs.get(f'TokenStore.{f.attr}')
